@@ -469,6 +469,19 @@ Section LfudaBridge.
                   (fun s e _ => g_step_ok s e) h (lfdl_init cap tick rnum rk)) as Q.
     rewrite <- dl_run_is_run_res, D in Q. apply req_ok. apply Q. clear. induction h; constructor; auto.
   Qed.
+
+  (* ---- the constructor, translated (member initialisers + body): it builds the literal machine's initial state,
+     so the whole-history theorem starts from what the source constructs ---- *)
+  (* the float ratio of the C++ constructor is the dyadic rnum / 2^rk *)
+  Lemma g_init_ok (cap : nat) tick rnum rk : (g_init cap tick rnum rk : lfdl K V) = lfdl_init cap tick rnum rk.
+  Proof. reflexivity. Qed.
+  Theorem generated_lfuda_constructed_no_UB_on_any_history : forall cap tick rnum rk (h : list (ev K V)),
+      1 <= cap -> (0 <= tick)%Z -> mono_from 0 h ->
+      exists l', run_res g_step (g_init cap tick rnum rk) h
+                 = Ok (l', snd (run lf_step (lf_init cap tick rnum rk) h)) /\
+                 dl_rep l' (fst (run lf_step (lf_init cap tick rnum rk) h)).
+  Proof. intros cap tick rnum rk h Hc Ht M. rewrite g_init_ok. apply generated_lfuda_no_UB_on_any_history; auto. Qed.
 End LfudaBridge.
 
 Print Assumptions generated_lfuda_no_UB_on_any_history.
+Print Assumptions generated_lfuda_constructed_no_UB_on_any_history.
